@@ -14,7 +14,7 @@ RULE = ("exception codes 0..255 x {read, write, write-multi} x {udp-rtu, tcp} x 
         "(transport, keep-alive, command kind, code, j, delay, entry) tuples")
 ASSUMPTIONS = ["reason texts are the standard Modbus exception names (table copied from the specification into refcodec)",
                "virtual clock: 'at once' means zero virtual time between delivery of the exception frame and the return"]
-MUST = ["family_level_rejection", "rejected_after_a_request_served_on_retransmission", "public_entry_dt", "named_setting_write", "two_tcp_objects_overlapping", "command_for_another_unit", "tcp_exception_with_wrong_mbap_length", "second_request_rejected", "rejected_after_lone_fragment", "rejected_udp", "rejected_tcp", "after_drops", "delayed_exception", "unknown_code", "public_entry"]
+MUST = ["poll_blocks_rejected_in_turn", "family_level_rejection", "rejected_after_a_request_served_on_retransmission", "public_entry_dt", "named_setting_write", "two_tcp_objects_overlapping", "command_for_another_unit", "tcp_exception_with_wrong_mbap_length", "second_request_rejected", "rejected_after_lone_fragment", "rejected_udp", "rejected_tcp", "after_drops", "delayed_exception", "unknown_code", "public_entry"]
 EXHAUSTIVE = {"quick": True, "thorough": True}
 EPS = 1e-6
 
@@ -197,36 +197,66 @@ def two_objects_part(part):
 
 
 def family_level_part(part):
-    """a poll of an ET model with extended meter blocks: the 125-register meter read is refused with ILLEGAL DATA ADDRESS (the documented
-    fallback follows) and the 58-register read of the SAME poll is answered with another exception code: that rejection must surface from
-    read_runtime_data() with its reason"""
+    """polls of ET models: (a) the 125-register meter read is refused with ILLEGAL DATA ADDRESS (the documented fallback follows) and the
+    58-register read of the SAME poll is answered with another exception code; (b) each single block of the poll in turn (running data,
+    battery, second battery, each meter block, MPPT) is answered with an exception code other than ILLEGAL DATA ADDRESS: that rejection must
+    surface from read_runtime_data() with its reason, at once and with the block transmitted exactly once"""
     from .. import env, models
     g = env.goodwe()
+    cases = []
     for port in (8899, 502):
         for code in (6, 3, 4, 200):
-            sim = models.et_sim(tag="ETU", rated=20000, refused_blocks=["meter_ext2"])
-            sim.exc_map[(3, 36000, 58)] = code
-            res = {}
+            cases.append((port, code, {"tag": "ETU", "rated": 20000, "refused_blocks": ["meter_ext2"]}, (3, 36000, 58),
+                          "meter read 36000x125 refused (code 2), the fallback read 36000x58"))
+    for kw in ({"tag": "ETU", "rated": 20000}, {"tag": "ETT", "rated": 10000}, {"tag": "ETU", "rated": 5000}):
+        sim = models.et_sim(**kw)
+        sim.regs[35184] = 2
+        blocks = []
 
-            async def flow(loop):
-                inv = g.ET("inv0", port, 0, 1, 0)
-                await inv.read_device_info()
-                t0 = loop.time()
-                try:
-                    await inv.read_runtime_data()
-                    res["out"] = ("returned", "")
-                except Exception as e:      # noqa
-                    res["out"] = (type(e).__name__, getattr(e, "message", str(e)))
-                res["dt"] = loop.time() - t0
-            run = engine.run_custom({("inv0", port): sim}, flow, vtime_cap=600, tx_cap=600)
-            part.evaluations += 1
-            part.count("family_level_rejection")
-            tr = "udp" if port == 8899 else "tcp"
-            if run.stop or run.error is not None or res.get("out") != ("RequestRejectedException", rc.reason(code)):
-                part.violate(f"C08/{tr}/not-rejected",
-                             f"ET.read_runtime_data(): meter read 36000x125 refused (code 2), the fallback read 36000x58 answered with exception {code}: "
-                             f"ended {res.get('out')} {run.stop or ''} instead of RequestRejectedException({rc.reason(code)!r})", {"family_level": True})
-            part.see(f"family-level|{port}|{code}")
+        async def probe(loop):
+            inv = g.ET("inv0", 8899, 0, 1, 0)
+            await inv.read_device_info()
+            n0 = len(sim.log)
+            await inv.read_runtime_data()
+            blocks.extend((r[2]["reg"], r[2]["count"]) for r in sim.log[n0:])
+        engine.run_custom({("inv0", 8899): sim}, probe, vtime_cap=600, tx_cap=600)
+        for reg, count in blocks:
+            for port, code in ((8899, 6), (502, 4), (8899, 0), (502, 11)):
+                cases.append((port, code, kw, (3, reg, count), f"block read {reg}x{count} of the poll"))
+            part.count("poll_blocks_rejected_in_turn")
+    for port, code, kw, block, what in cases:
+        sim = models.et_sim(**kw)
+        sim.regs[35184] = 2
+        sim.exc_map[block] = code
+        res = {}
+
+        async def flow(loop):
+            inv = g.ET("inv0", port, 0, 1, 2)
+            await inv.read_device_info()
+            t0 = loop.time()
+            res["n0"] = len(sim.log)
+            try:
+                await inv.read_runtime_data()
+                res["out"] = ("returned", "")
+            except Exception as e:      # noqa
+                res["out"] = (type(e).__name__, getattr(e, "message", str(e)))
+            res["dt"] = loop.time() - t0
+        run = engine.run_custom({("inv0", port): sim}, flow, vtime_cap=600, tx_cap=600)
+        part.evaluations += 1
+        part.count("family_level_rejection")
+        tr = "udp" if port == 8899 else "tcp"
+        tag = f"ET({kw['tag']}, {kw['rated']} W).read_runtime_data(): {what} answered with exception {code}"
+        if run.stop or run.error is not None or res.get("out") != ("RequestRejectedException", rc.reason(code)):
+            part.violate(f"C08/{tr}/not-rejected",
+                         f"{tag}: ended {res.get('out')} {run.stop or ''} instead of RequestRejectedException({rc.reason(code)!r})", {"family_level": True})
+        elif res["dt"] > 1e-6:
+            part.violate(f"C08/{tr}/rejection-not-immediate", f"{tag}: the poll ended {res['dt']} s after it began (virtual clock, all answers immediate)",
+                         {"family_level": True})
+        else:
+            sent = [r for r in sim.log[res["n0"]:] if (r[2]["reg"], r[2]["count"]) == block[1:]]
+            if len(sent) != 1:
+                part.violate(f"C08/{tr}/retransmission-after-rejection", f"{tag}: that block was transmitted {len(sent)} times", {"family_level": True})
+        part.see(f"family-level|{port}|{code}|{kw['tag']}|{block}")
 
 
 def plan(tier, seed):
